@@ -4,6 +4,7 @@ use crate::sim::Ctx;
 pub mod demux;
 pub mod dtls;
 pub mod latch;
+pub mod pc_close;
 pub mod pc_connect;
 pub mod srtpgate;
 pub mod gen_sctp;
@@ -16,6 +17,7 @@ pub async fn dispatch(ctx: &Ctx) {
         "demux" => demux::run(ctx).await,
         "latch" => latch::run(ctx).await,
         "pc_connect" => pc_connect::run(ctx).await,
+        "pc_close" => pc_close::run(ctx).await,
         "srtp_gate" => srtpgate::run(ctx).await,
         other => ctx.violate("HARNESS.scenario", format!("unknown scenario {other}")),
     }
@@ -35,6 +37,7 @@ pub fn generate(prop: &str, seed: u64, idx: u64, tier: Tier) -> Option<Plan> {
         "C19" => Some(demux::generate(prop, seed, idx, tier)),
         "C18" => Some(latch::generate(prop, seed, idx, tier)),
         "C10" => Some(pc_connect::generate(prop, seed, idx, tier)),
+        "C17" => Some(pc_close::generate(prop, seed, idx, tier)),
         "C14" => Some(srtpgate::generate(prop, seed, idx, tier)),
         _ => None,
     }
@@ -47,6 +50,7 @@ pub fn budget(prop: &str, tier: Tier) -> u64 {
         ("C19", t) => demux::budget(prop, t),
         ("C18", t) => latch::budget(prop, t),
         ("C10", t) => pc_connect::budget(prop, t),
+        ("C17", t) => pc_close::budget(prop, t),
         ("C14", t) => srtpgate::budget(prop, t),
         ("C01", Tier::Quick) => 3000,
         ("C01", Tier::Thorough) => 150_000,
